@@ -365,7 +365,7 @@ PROPS = {
 # ---------------------------------------------------------------- MANIFEST texts
 MANIFEST_TEXT = {
     "C05": dict(
-        technique="history-vs-model runtime monitor (bitmap point-set model) + ASan; exhaustive 4x3-grid sub-scope",
+        technique="history-vs-model runtime monitor (bitmap point-set model) + ASan; exhaustive grid sub-scope (3x3 quick, 4x3 thorough)",
         level_text="Exploration: every region operation of random 40-step programs (both widths, every aliasing pattern, windows at the coordinate limits) is compared point by point with a bitmap model; "
                    "the thorough tier additionally enumerates all 4096 regions of a 4x3 grid pairwise. Held-on-observed, not a proof; right level because the quantifier (all region pairs) is unbounded and the code is pure sequential C.",
         level_note="trusted: the 60-line bitmap model and canonicaliser in harness/mon_region.c; contains_point as observation channel; gcc sanitizer runtimes"),
@@ -385,7 +385,7 @@ MANIFEST_TEXT = {
 }
 
 MANIFEST_TEXT["C18"] = dict(
-    technique="structural runtime monitor on the returned block + ASan (exact-size heap block) + UBSan attribution in pixman-filter.c",
+    technique="structural runtime monitor on the returned block (length, header, 64-bit phase sums, block is a function of the arguments) + constant image through every fetcher + ASan (exact-size heap block) + UBSan attribution in pixman-filter.c",
     level_text="Exploration, exhaustive over an enumerated grid: all 64 kernel pairs x 21 scales x subsample bits 0..8 per axis plus random scales; each block is checked for length/header agreement, exact 64-bit phase sums, set_filter acceptance and constancy of a filtered constant image, under ASan.",
     level_note="trusted: 64-bit re-summation in harness/mon_filter.c; ASan red zones around the library's own malloc block")
 
@@ -410,12 +410,12 @@ MANIFEST_TEXT["C19"] = dict(
     level_note="trusted: byte model in harness/mon_blt.c; digest of defined destination bits for the differential part")
 
 MANIFEST_TEXT["C03"] = dict(
-    technique="model-based runtime monitor: bitmap model of the composite region vs pixman_compute_composite_region; bit-level write-footprint snapshots on guard-paged storage; must-write marking requests",
+    technique="model-based runtime monitor: bitmap model of the composite region vs pixman_compute_composite_region; bit-level write-footprint snapshots on guard-paged storage; must-write marking requests; table-directed requests for every fast-path/iterator entry ending on word boundaries inside the destination",
     level_text="Exploration: 10^5..5*10^6 requests with multi-rectangle clips on every image and alpha map, every destination depth and all drawing entry points; the region query is compared point by point with a model and every bit outside the region must survive the call.",
     level_note="trusted: the intersection model (grid_and_*) in harness/mon_c03.c; snapshot diff at bit granularity")
 
 MANIFEST_TEXT["C10"] = dict(
-    technique="reference-codec runtime monitor, exhaustive over pixel values for bpp <= 16; translating accessors on an unmapped fake base (a bypass faults); bit-level store footprint",
+    technique="reference-codec runtime monitor, exhaustive over pixel values for bpp <= 16; translating accessors on an unmapped fake base (a bypass faults); bit-level store footprint; copies of run-structured rows between formats and palettes",
     level_text="Exploration, exhaustive in the pixel-value dimension for all formats up to 16 bpp: decode, encode, round trips, footprint, reader agreement (8-bit and float, scanline vs single pixel, YUV from every start column) and accessor equivalence (also for callbacks installed after first use, on one side only, and removed again) are each compared with an independent codec.",
     level_note="trusted: harness/ref_pixel.c; conversions go through OP_SRC composites (default and general-only chains)")
 
